@@ -718,7 +718,7 @@ fn parse_json_filter(input: &[u8], output: &mut [u8]) -> Result<(usize, usize), 
         eat_whitespace_and_commas(input, &mut inpos);
 
         // Check for end
-        if input[inpos] == b'}' {
+        if peek(input, inpos)? == b'}' {
             inpos += 1;
             break;
         }
@@ -832,6 +832,9 @@ fn parse_json_filter(input: &[u8], output: &mut [u8]) -> Result<(usize, usize), 
             inpos += 1; // pass the hash
 
             // Mark this position (on the letter itself)
+            if num_tag_fields >= start_tags.len() {
+                return Err(InnerError::JsonBadFilter("Too many tag fields", inpos).into());
+            }
             start_tags[num_tag_fields] = inpos;
             num_tag_fields += 1;
 
@@ -864,10 +867,13 @@ fn parse_json_filter(input: &[u8], output: &mut [u8]) -> Result<(usize, usize), 
         // `inpos` is right after the open bracket of the array
         loop {
             eat_whitespace_and_commas(input, &mut inpos);
-            if input[inpos] == b']' {
+            if peek(input, inpos)? == b']' {
                 break;
             }
             read_id(input, &mut inpos, &mut output[end..])?;
+            if num_ids == u16::MAX {
+                return Err(InnerError::JsonBadFilter("Too many ids", inpos).into());
+            }
             num_ids += 1;
             end += ID_SIZE;
         }
@@ -882,10 +888,13 @@ fn parse_json_filter(input: &[u8], output: &mut [u8]) -> Result<(usize, usize), 
         // `inpos` is right after the open bracket of the array
         loop {
             eat_whitespace_and_commas(input, &mut inpos);
-            if input[inpos] == b']' {
+            if peek(input, inpos)? == b']' {
                 break;
             }
             read_pubkey(input, &mut inpos, &mut output[end..])?;
+            if num_authors == u16::MAX {
+                return Err(InnerError::JsonBadFilter("Too many authors", inpos).into());
+            }
             num_authors += 1;
             end += PUBKEY_SIZE;
         }
@@ -904,7 +913,7 @@ fn parse_json_filter(input: &[u8], output: &mut [u8]) -> Result<(usize, usize), 
         // `inpos` is right after the open bracket of the array
         loop {
             eat_whitespace_and_commas(input, &mut inpos);
-            if input[inpos] == b']' {
+            if peek(input, inpos)? == b']' {
                 break;
             }
             let u = read_u64(input, &mut inpos)?;
@@ -914,6 +923,9 @@ fn parse_json_filter(input: &[u8], output: &mut [u8]) -> Result<(usize, usize), 
                 );
             }
             put(output, end, (u as u16).to_ne_bytes().as_slice())?;
+            if num_kinds == u16::MAX {
+                return Err(InnerError::JsonBadFilter("Too many kinds", inpos).into());
+            }
             num_kinds += 1;
             end += KIND_SIZE;
         }
@@ -937,6 +949,9 @@ fn parse_json_filter(input: &[u8], output: &mut [u8]) -> Result<(usize, usize), 
         #[allow(clippy::needless_range_loop)]
         for w in 0..num_tag_fields {
             // Write it's offset
+            if end - write_tags_start > 65535 {
+                return Err(InnerError::JsonBadFilter("Tags section too long", inpos).into());
+            }
             put(
                 output,
                 write_tags_start + 4 + (2 * w),
@@ -950,8 +965,8 @@ fn parse_json_filter(input: &[u8], output: &mut [u8]) -> Result<(usize, usize), 
             let countindex = end;
             end += 2;
             put(output, end, 1_u16.to_ne_bytes().as_slice())?;
-            if output.len() < end + 2 {
-                return Err(InnerError::BufferTooSmall(end + 2).into());
+            if output.len() < end + 3 {
+                return Err(InnerError::BufferTooSmall(end + 3).into());
             }
             output[end + 2] = letter;
 
@@ -967,16 +982,26 @@ fn parse_json_filter(input: &[u8], output: &mut [u8]) -> Result<(usize, usize), 
             let mut count: u16 = 1; // the tag letter itself counts
             loop {
                 eat_whitespace_and_commas(input, &mut inpos);
-                if input[inpos] == b']' {
+                if peek(input, inpos)? == b']' {
                     break;
                 }
                 verify_char(input, b'"', &mut inpos)?;
                 // copy  data
+                if output.len() < end + 2 {
+                    return Err(InnerError::BufferTooSmall(end + 2).into());
+                }
                 let (inlen, outlen) = json_unescape(&input[inpos..], &mut output[end + 2..])?;
+                if outlen > 65535 {
+                    return Err(InnerError::JsonBadFilter("Tag value too long", inpos).into());
+                }
                 // write len
                 put(output, end, (outlen as u16).to_ne_bytes().as_slice())?;
                 end += 2 + outlen;
-                inpos += inlen + 1;
+                inpos += inlen;
+                verify_char(input, b'"', &mut inpos)?;
+                if count == u16::MAX {
+                    return Err(InnerError::JsonBadFilter("Too many tag values", inpos).into());
+                }
                 count += 1;
             }
 
@@ -984,6 +1009,9 @@ fn parse_json_filter(input: &[u8], output: &mut [u8]) -> Result<(usize, usize), 
             put(output, countindex, count.to_ne_bytes().as_slice())?;
         }
         // write length of tags section
+        if end - write_tags_start > 65535 {
+            return Err(InnerError::JsonBadFilter("Tags section too long", inpos).into());
+        }
         put(
             output,
             write_tags_start,
